@@ -47,7 +47,15 @@ SPA_DEFS = dict(TEXT_DEFS,
  proj_lines=(['T', 'k'], 'forall(ln, 1 + n1, 1 + n1 + k, proj_line(T, ln), text_toks(T, ln), len(text_toks(T, ln)))'),
  lec_lines=(['T', 'k'], 'forall(ln, 1 + n1 + n2, 1 + n1 + n2 + k, lec_line(T, ln), text_toks(T, ln), len(text_toks(T, ln)))'))
 
+# Generator.__init__ (the API entry point): parse, then dispatch to the generator of the problem type.  Verified per problem type with the option
+# parser INLINED (force_inline), so that every precondition of generate_instances is a call-site obligation discharged from the checks parse performed:
+# C15's accepted set is composed with C08's requirements by execution, not by inspection.  The skew is outside C15's bound list: positive when given.
 CONTRACTS = {
+ 'generator:Generator.__init__': dict(
+    params={'args': ('ext', 'argv')}, self_fields={},
+    defs={'has': (['x'], 'not (x == None)')},
+    requires=[('skew-positive-when-given', "implies(has(given('skew')), given('skew') > 0)")],
+    ensures=[('one-file-written-per-requested-instance', 'files_written() == old(files_written()) + self.args.numberinstances')]),
  SPA + 'create_instance_info': dict(pure_text=True), HSH + 'create_instance_info': dict(pure_text=True),
  SPA + 'create_instance': dict(
     locals={'instance_string': 'text'}, defs=SPA_DEFS,
@@ -98,6 +106,7 @@ CONTRACTS = {
 
  SPA + 'generate_instances': dict(
     params={'args': ('obj', 'GenArgs')}, self_fields={}, theory=['listsets'],
+    modifies=['ghost:fs_n', 'ghost:fs_idx', 'ghost:fs_shaped', 'ghost:fs_txt', 'ghost:fs_hastxt'],          # the ghost log of file writes (callers must not assume it unchanged)
     defs={'file_ok': (['w', 'u'], 'file_named_ok(w) and file_index(w) == u and file_has_text(w) and len(text_toks(file_text(w), 0)) == 3 and value(text_toks(file_text(w), 0)[0]) == args.n1 and value(text_toks(file_text(w), 0)[1]) == args.n2 and value(text_toks(file_text(w), 0)[2]) == args.n3 and text_len(file_text(w)) >= 2 + args.n1 + args.n2 + args.n3')},
     requires=ARGS_OK + ARGS_SPA + ['args.upperquotas >= args.n2'],
     loops={0: dict(invariant=[('one-file-written-per-instance-so-far', 'files_written() == old(files_written()) + _k'),
@@ -109,6 +118,7 @@ CONTRACTS = {
              ('files-are-named-0-1-2-in-the-output-directory-and-each-holds-an-instance-text-with-the-requested-counts', 'forall(u, 0, args.numberinstances, file_ok(old(files_written()) + u, u))')]),
  HSH + 'generate_instances': dict(
     params={'args': ('obj', 'GenArgs')}, self_fields={}, theory=['listsets'],
+    modifies=['ghost:fs_n', 'ghost:fs_idx', 'ghost:fs_shaped', 'ghost:fs_txt', 'ghost:fs_hastxt'],          # the ghost log of file writes (callers must not assume it unchanged)
     defs={'file_ok': (['w', 'u'], 'file_named_ok(w) and file_index(w) == u and file_has_text(w) and len(text_toks(file_text(w), 0)) == 2 and value(text_toks(file_text(w), 0)[0]) == args.n1 and value(text_toks(file_text(w), 0)[1]) == args.n2 and text_len(file_text(w)) >= 2 + args.n1 + args.n2')},
     requires=ARGS_OK + ['args.upperquotas >= args.n2'],
     loops={0: dict(invariant=[('one-file-written-per-instance-so-far', 'files_written() == old(files_written()) + _k'),
